@@ -1,1 +1,168 @@
-(* placeholder: to be written *)
+(** Trace checker for the fees-collector correspondence run: replays the operations the harness
+    executed on the real contracts (fees-collector + energy-factory-mock) and compares every
+    observation.  Returns [] or [index; field; model value; implementation value] for the first
+    difference.
+
+    Field codes: 1 ok/err, 2 returned payments (3 = their number), 4 current week, 5 last global update
+    week, 6 first bucket id, 1000+w total energy of week w, 2000+w total locked tokens of week w,
+    3000+w total rewards of week w (value = position-wise first differing amount / length),
+    40000+100*w+t accumulated fees (week w, token t), 5000+10*u+k claim progress of user u
+    (k = 0 presence, 1 amount, 2 epoch, 3 tokens, 4 week), 6000+t collector balance of token t,
+    7000/8000 bucket tokens/surplus (+ bucket id), 9000 number of non-empty buckets. *)
+From MX Require Import Base.Prelude Gen.Params Model.Weekly Model.FeesCollector.
+
+Record fobs := mkObs {
+  o_ok : bool;
+  o_outs : list (Z * Z);                 (* payments returned by the endpoint: (token code, amount) *)
+  o_week : Z;                            (* getCurrentWeek *)
+  o_last : Z;                            (* getLastGlobalUpdateWeek *)
+  o_first : Z;                           (* firstBucketId *)
+  o_energy : list (Z * Z);               (* (week, getTotalEnergyForWeek) over the observed window *)
+  o_tokens : list (Z * Z);               (* (week, getTotalLockedTokensForWeek) *)
+  o_rewards : list (Z * list (Z * Z));   (* (week, getTotalRewardsForWeek) *)
+  o_acc : list (Z * list (Z * Z));       (* (week, [(token, getAccumulatedFees)]) *)
+  o_prog : list (Z * list Z);            (* (user, [amount; epoch; tokens; week]) or (user, []) *)
+  o_bal : list (Z * Z);                  (* collector balances *)
+  o_btok : list (Z * Z);                 (* every stored bucket: token_amount *)
+  o_bsur : list (Z * Z)                  (* every stored bucket: surplus_energy_amount *)
+}.
+
+Fixpoint pairs_eqb (a b : list (Z * Z)) : bool :=
+  match a, b with
+  | [], [] => true
+  | (x1, y1) :: a', (x2, y2) :: b' => (x1 =? x2) && (y1 =? y2) && pairs_eqb a' b'
+  | _, _ => false
+  end.
+
+(** first key of [l] on which [get] disagrees with the listed value *)
+Fixpoint first_diff (get : Z -> Z) (l : list (Z * Z)) : option (Z * Z * Z) :=
+  match l with
+  | [] => None
+  | (k, v) :: t => if get k =? v then first_diff get t else Some (k, get k, v)
+  end.
+
+Definition sum_amounts (l : list (Z * Z)) : Z := fold_right (fun p acc => snd p + acc) 0 l.
+
+Fixpoint first_rewards_diff (f : fc) (l : list (Z * list (Z * Z))) : option (Z * Z * Z) :=
+  match l with
+  | [] => None
+  | (w, v) :: t =>
+      let m := view_total_rewards f w in
+      if pairs_eqb m v then first_rewards_diff f t
+      else Some (w, sum_amounts m + Z.of_nat (length m), sum_amounts v + Z.of_nat (length v))
+  end.
+
+Fixpoint first_acc_diff (f : fc) (l : list (Z * list (Z * Z))) : option (Z * Z * Z) :=
+  match l with
+  | [] => None
+  | (w, v) :: t =>
+      match first_diff (view_accumulated f w) v with
+      | Some (tk, m, i) => Some (100 * w + tk, m, i)
+      | None => first_acc_diff f t
+      end
+  end.
+
+Definition prog_fields (f : fc) (u : Z) : list Z :=
+  match view_progress f u with
+  | Some p => [en_amt (pr_en p); en_epoch (pr_en p); en_tok (pr_en p); pr_week p]
+  | None => []
+  end.
+
+Fixpoint first_list_diff (k : Z) (a b : list Z) : option (Z * Z * Z) :=
+  match a, b with
+  | [], [] => None
+  | x :: a', y :: b' => if x =? y then first_list_diff (k + 1) a' b' else Some (k, x, y)
+  | [], y :: _ => Some (0, 0, 1)
+  | x :: _, [] => Some (0, 1, 0)
+  end.
+
+Fixpoint first_prog_diff (f : fc) (l : list (Z * list Z)) : option (Z * Z * Z) :=
+  match l with
+  | [] => None
+  | (u, v) :: t =>
+      match first_list_diff 1 (prog_fields f u) v with
+      | Some (k, m, i) => Some (10 * u + k, m, i)
+      | None => first_prog_diff f t
+      end
+  end.
+
+Definition nonzero_count (l : list (Z * Z)) : Z :=
+  Z.of_nat (length (filter (fun kv => negb (snd kv =? 0)) l)).
+
+Definition cmp_state (i : Z) (f : fc) (o : fobs) : list Z :=
+  let w := fc_w f in
+  match current_week f with
+  | Err _ => [i; 4; -1; o_week o]
+  | Ok cw =>
+  if negb (cw =? o_week o) then [i; 4; cw; o_week o]
+  else if negb (w_last w =? o_last o) then [i; 5; w_last w; o_last o]
+  else if negb (w_first w =? o_first o) then [i; 6; w_first w; o_first o]
+  else match first_diff (view_total_energy f) (o_energy o) with
+  | Some (k, m, v) => [i; 1000 + k; m; v]
+  | None =>
+  match first_diff (view_total_locked f) (o_tokens o) with
+  | Some (k, m, v) => [i; 2000 + k; m; v]
+  | None =>
+  match first_rewards_diff f (o_rewards o) with
+  | Some (k, m, v) => [i; 3000 + k; m; v]
+  | None =>
+  match first_acc_diff f (o_acc o) with
+  | Some (k, m, v) => [i; 40000 + k; m; v]
+  | None =>
+  match first_prog_diff f (o_prog o) with
+  | Some (k, m, v) => [i; 5000 + k; m; v]
+  | None =>
+  match first_diff (aget (fc_bal f)) (o_bal o) with
+  | Some (k, m, v) => [i; 6000 + k; m; v]
+  | None =>
+  match first_diff (aget (w_btok w)) (o_btok o) with
+  | Some (k, m, v) => [i; 7000 + k; m; v]
+  | None =>
+  match first_diff (aget (w_bsur w)) (o_bsur o) with
+  | Some (k, m, v) => [i; 8000 + k; m; v]
+  | None =>
+  if negb (nonzero_count (w_btok w) =? nonzero_count (o_btok o))
+  then [i; 9000; nonzero_count (w_btok w); nonzero_count (o_btok o)]
+  else if negb (nonzero_count (w_bsur w) =? nonzero_count (o_bsur o))
+  then [i; 9001; nonzero_count (w_bsur w); nonzero_count (o_bsur o)]
+  else []
+  end end end end end end end end
+  end.
+
+Fixpoint first_pair_diff (a b : list (Z * Z)) : list Z :=
+  match a, b with
+  | [], [] => []
+  | (t1, x) :: a', (t2, y) :: b' =>
+      if negb (t1 =? t2) then [t1; t2] else if negb (x =? y) then [x; y] else first_pair_diff a' b'
+  | [], (_, y) :: _ => [0; y]
+  | (_, x) :: _, [] => [x; 0]
+  end.
+
+Fixpoint check_trace (f : fc) (i : Z) (tr : list (fop * fobs)) : list Z :=
+  match tr with
+  | [] => []
+  | (op, o) :: t =>
+      match step f op with
+      | Ok (f', outs, _) =>
+          if negb (o_ok o) then [i; 1; 1; 0]
+          else if negb (Z.of_nat (length outs) =? Z.of_nat (length (o_outs o)))
+               then [i; 3; Z.of_nat (length outs); Z.of_nat (length (o_outs o))]
+          else match first_pair_diff outs (o_outs o) with
+               | x :: y :: _ => [i; 2; x; y]
+               | _ =>
+                 match cmp_state i f' o with
+                 | [] => check_trace f' (i + 1) t
+                 | d => d
+                 end
+               end
+      | Err _ =>
+          if o_ok o then [i; 1; 0; 1]
+          else match cmp_state i f o with
+               | [] => check_trace f (i + 1) t
+               | d => d
+               end
+      end
+  end.
+
+(** the deployment the harness performs: init at [epoch], then the owner's configuration calls *)
+Definition init_world (epoch : Z) (setup : list fop) : fc := run (init_fc epoch) setup.
